@@ -667,8 +667,19 @@ func ConvertTypedValueToYANGType(schemaElem *sdcpb.SchemaElem, tv *sdcpb.TypedVa
 		case "identityref", "union":
 			// a value given as string is converted to the typed value that the
 			// other input forms (json, json_ietf) yield, otherwise equal values do not compare equal
-			if _, ok := tv.Value.(*sdcpb.TypedValue_StringVal); ok {
+			switch tv.Value.(type) {
+			case *sdcpb.TypedValue_StringVal:
 				return convertStringToTv(schemaElem.GetField().GetType(), tv.GetStringVal(), tv.GetTimestamp())
+			case *sdcpb.TypedValue_DecimalVal:
+				// a decimal64 member of a union, bring it into the one representation per value
+				d64, err := ParseDecimal64(TypedValueToString(tv))
+				if err != nil {
+					return nil, err
+				}
+				return &sdcpb.TypedValue{
+					Timestamp: tv.GetTimestamp(),
+					Value:     &sdcpb.TypedValue_DecimalVal{DecimalVal: d64},
+				}, nil
 			}
 			return tv, nil
 		case "uint64", "uint32", "uint16", "uint8":
